@@ -166,10 +166,20 @@ def end_checks(res):
             preds['parentless_chain_broken'] = ['chain_break']
     if ran_real == ran_model:
         if verdict != clo['verdict']:
-            res.violate('wrong_end_verdict', {
+            d = {
                 'model': clo['verdict'], 'real': res.stops[-1],
                 'unsat': sorted(prog.iid(*i) for i in clo['unsat']),
-                'incomplete': sorted(prog.iid(*i) for i in clo['incomplete'])})
+                'incomplete': sorted(prog.iid(*i) for i in clo['incomplete'])}
+            if (clo['verdict'] == 'stall' and verdict == 'shutdown'
+                    and clo['unsat'] and not clo['incomplete']
+                    and all(chain_break(model, i, launched)
+                            for i in clo['unsat'])):
+                # C01-F1 again: the only instances expected to be left
+                # waiting are parentless ones (absolute triggers only) that
+                # the shipped chain never spawns, so nothing is left waiting
+                d['predicates'] = ['unsatisfied_instance_never_spawned']
+                d['property'] = 'C01'
+            res.violate('wrong_end_verdict', d)
     return preds, clo, launched
 
 
